@@ -138,7 +138,7 @@ fn gen(ctx: &GenCtx, i: u64, prop: &str) -> Option<Run> {
         let is_exp = prop == "C11";
         let t = if is_exp { now - r.range(2 * NS, 400 * DAY) } else { now + r.range(60 * NS, 400 * DAY) };
         let t = t - t.rem_euclid(NS);
-        Some((is_exp, render_canonical(&mut r, t), t))
+        Some((is_exp, render_canonical_t(&mut r, t), t))
     } else {
         None
     };
@@ -198,6 +198,10 @@ fn gen(ctx: &GenCtx, i: u64, prop: &str) -> Option<Run> {
             payload.insert("exp".into(), x);
         }
         if let Some(x) = nb {
+            // sometimes the token also says it was ISSUED at (or after) its nbf - which changes nothing
+            if r.chance(1, 4) {
+                payload.insert("iat".into(), if r.chance(1, 2) { x.clone() } else { json!(render_canonical(&mut r, now + 2 * DAY)) });
+            }
             payload.insert("nbf".into(), x);
         }
         if let Some((is_exp, s, _)) = &pinned {
